@@ -278,7 +278,6 @@ theorem blockBody_cap (s : Bytes) (n lo p : Nat) (out : Bytes) (p1 : Nat) (out1 
         · cases h
         · cases h
         · rename_i hl hd minL p1' hdyn
-          simp only [hdyn]
           exact huffBlock_cap _ _ _ _ s n lo _ _ _ _ _ h
       · simp at h
 
@@ -310,9 +309,9 @@ theorem blocks_cap (s : Bytes) (n lo : Nat) :
         obtain ⟨⟨x, hx⟩, hcap⟩ := blockBody_cap s n lo p out p1 out1 hb
         subst hx
         -- what the full run does after this block
-        have hrest : ∃ z, outE = out1 ++ z := by
+        have hrest : ∃ z, outE = out ++ x ++ z := by
           split at h
-          · simp at h; exact ⟨#[], by simp [h.2]⟩
+          · simp at h; exact ⟨#[], by rw [← h.2]; simp⟩
           · simp only [capReached, Bool.false_eq_true, if_false] at h
             obtain ⟨o, rest, _, e2, _⟩ := ih p1 (out ++ x) pE outE h
             exact ⟨o ++ rest, by rw [e2, Array.append_assoc]⟩
@@ -328,7 +327,7 @@ theorem blocks_cap (s : Bytes) (n lo : Nat) :
           · rename_i hfin
             simp only [hfin, if_false]
             simp only [capReached, Bool.false_eq_true, if_false] at h
-            by_cases hc : capReached (some n) (out1.size - lo) = true
+            by_cases hc : capReached (some n) ((out ++ x).size - lo) = true
             · simp only [hc, if_true]
               refine ⟨x, z, by first | rfl | trivial, hz, Or.inr ⟨by first | rfl | trivial, ?_⟩⟩
               simpa [capReached] using hc
